@@ -82,13 +82,44 @@ Fixpoint eval (h : heap) (e : tree) : heap * outcome ppl :=
 Fixpoint leaves (e : tree) : list ppl :=
   match e with Leaf p => [p] | Plus a b => leaves a ++ leaves b end.
 
-(* ProcessingPipelineResolver.from_pipeline_list(ops).resolve(specs): names registered by a dict
-   comprehension (the last pipeline of a name wins), every spec resolved first, sorted by
-   (priority, spec), summed *)
-Definition resolve (h : heap) (reg : list ppl) (specs : list str) : heap * outcome ppl :=
-  match resolve_order p_name p_prio reg specs with
-  | None => (h, SigmaErr E_NotFound)
-  | Some l => psum h l
+(* ProcessingPipelineResolver(table).resolve(specs): every spec is resolved first, in argument order
+   - a registered object is taken as it is, a callable / YAML file yields a fresh pipeline with fresh
+   item objects (c counts these instantiations) -, then the (pipeline, priority, spec) triples are
+   sorted by (priority, spec) and summed *)
+Definition mk_def (h : heap) (d : pdef) := mk h (d_items d) (d_post d) (d_fin d) (d_vars d) (d_prio d) (d_name d).
+Fixpoint minst_all (h : heap) (c : N) (l : list ((str * rent ppl) * str)) : (heap * N) * outcome (list (ppl * str)) :=
+  match l with
+  | [] => ((h, c), Ok [])
+  | es :: l' => match snd (fst es) with
+                | RObj p => let r := minst_all h c l' in (fst r, obind (snd r) (fun x => Ok ((p, snd es) :: x)))
+                | RCall d => let hp := mk_def h (renum c d) in
+                             match snd hp with
+                             | Ok p => let r := minst_all (fst hp) (N.succ c) l' in
+                                       (fst r, obind (snd r) (fun x => Ok ((p, snd es) :: x)))
+                             | SigmaErr t => ((fst hp, N.succ c), SigmaErr t)
+                             | Crash t => ((fst hp, N.succ c), Crash t)
+                             end
+                | RSeq ds => let hp := mk_def h (renum c (seq_pick c ds)) in
+                             match snd hp with
+                             | Ok p => let r := minst_all (fst hp) (N.succ c) l' in
+                                       (fst r, obind (snd r) (fun x => Ok ((p, snd es) :: x)))
+                             | SigmaErr t => ((fst hp, N.succ c), SigmaErr t)
+                             | Crash t => ((fst hp, N.succ c), Crash t)
+                             end
+                end
+  end.
+Definition ent_prio (e : str * rent ppl) : Z :=
+  match snd e with RObj p => p_prio p | RCall d => d_prio d | RSeq ds => d_prio (seq_pick 0 ds) end.
+Definition resolve (h : heap) (c : N) (t : list (str * rent ppl)) (specs : list str) : (heap * N) * outcome ppl :=
+  match resolve_all tab_nm t specs with
+  | None => ((h, c), SigmaErr E_NotFound)
+  | Some l => let r := minst_all h c l in
+              match snd r with
+              | Ok infos => let hs := psum (fst (fst r)) (map fst (isort (info_leb p_prio) infos)) in
+                            ((fst hs, snd (fst r)), snd hs)
+              | SigmaErr x => (fst r, SigmaErr x)
+              | Crash x => (fst r, Crash x)
+              end
   end.
 
 (* Backend.init_processing_pipeline: backend + user + output-format pipeline, then three vars *)
@@ -195,16 +226,16 @@ Fixpoint to_tree (regs : list ppl) (e : itree) : option tree :=
                  end
   end.
 Record mach := { mc_heap : heap; mc_regs : list ppl; mc_lastA : option ppl; mc_lastB : option ppl;
-                 mc_res : option result }.
+                 mc_res : option result; mc_fresh : N }.
 Definition mc_last (m : mach) (b : bool) := if b then mc_lastB m else mc_lastA m.
-Definition mc_push (m : mach) (hp : heap * outcome ppl) : outcome mach :=
+Definition mc_push (m : mach) (c : N) (hp : heap * outcome ppl) : outcome mach :=
   obind (snd hp) (fun p =>
     Ok {| mc_heap := fst hp; mc_regs := mc_regs m ++ [p]; mc_lastA := mc_lastA m; mc_lastB := mc_lastB m;
-          mc_res := mc_res m |}).
+          mc_res := mc_res m; mc_fresh := c |}).
 Definition mc_set_last (m : mach) (b : bool) (hp : heap * outcome ppl) : outcome mach :=
   obind (snd hp) (fun p =>
     Ok {| mc_heap := fst hp; mc_regs := mc_regs m; mc_lastA := if b then mc_lastA m else Some p;
-          mc_lastB := if b then Some p else mc_lastB m; mc_res := mc_res m |}).
+          mc_lastB := if b then Some p else mc_lastB m; mc_res := mc_res m; mc_fresh := mc_fresh m |}).
 Definition mc_user (m : mach) (u : option nat) : outcome (option ppl) :=
   match u with
   | None => Ok None
@@ -216,15 +247,20 @@ Definition mc_run (f : fmt) (rules : list rule) (m : mach) (b : bool) : outcome 
   | Some p => let hr := m_run (mc_heap m) f p rules in
               obind (snd hr) (fun r =>
                 Ok {| mc_heap := fst hr; mc_regs := mc_regs m; mc_lastA := mc_lastA m; mc_lastB := mc_lastB m;
-                      mc_res := Some r |})
+                      mc_res := Some r; mc_fresh := mc_fresh m |})
   end.
-Definition mstep (f : fmt) (reg : list ppl) (bk outf : ppl) (rules : list rule) (m : mach) (o : op) : outcome mach :=
+Definition mstep (f : fmt) (t : list (str * rent ppl)) (bk outf : ppl) (rules : list rule) (m : mach) (o : op) : outcome mach :=
   match o with
   | OpTree e => match to_tree (mc_regs m) e with
                 | None => Crash C_Harness
-                | Some t => mc_push m (eval (mc_heap m) t)
+                | Some t => mc_push m (mc_fresh m) (eval (mc_heap m) t)
                 end
-  | OpResolve specs => mc_push m (resolve (mc_heap m) reg specs)
+  | OpResolve specs => let r := resolve (mc_heap m) (mc_fresh m) t specs in
+                       mc_push m (snd (fst r)) (fst (fst r), snd r)
+  | OpSum l => match nths (mc_regs m) l with
+               | Some (p :: ps) => mc_push m (mc_fresh m) (psum (mc_heap m) (p :: ps))
+               | _ => Crash C_Harness
+               end
   | OpInit b u => obind (mc_user m u) (fun up => mc_set_last m b (init (mc_heap m) f bk up outf))
   | OpRun b => mc_run f rules m b
   | OpConvert b u => obind (mc_user m u) (fun up =>
@@ -237,16 +273,13 @@ Definition run_dom (m : mach) (o : op) (prev : bool) : bool :=
   | OpRun b => prev && match mc_last m b with Some p => ownedb (mc_heap m) p | None => true end
   | _ => prev
   end.
-Definition mstep_acc (f : fmt) (reg : list ppl) (bk outf : ppl) (rules : list rule)
+Definition mstep_acc (f : fmt) (t : list (str * rent ppl)) (bk outf : ppl) (rules : list rule)
            (acc : outcome mach * bool) (o : op) : outcome mach * bool :=
   match fst acc with
-  | Ok m => (mstep f reg bk outf rules m o, run_dom m o (snd acc))
+  | Ok m => (mstep f t bk outf rules m o, run_dom m o (snd acc))
   | _ => acc
   end.
 (* the initial objects: the operand pipelines, then the backend's class-level pipelines *)
-Record pdef := { d_items : list pitem; d_post : list ppost; d_fin : list pfin; d_vars : dict;
-                 d_prio : Z; d_name : option str }.
-Definition mk_def (h : heap) (d : pdef) := mk h (d_items d) (d_post d) (d_fin d) (d_vars d) (d_prio d) (d_name d).
 Fixpoint mk_defs (h : heap) (ds : list pdef) : heap * outcome (list ppl) :=
   match ds with
   | [] => (h, Ok [])
@@ -254,22 +287,21 @@ Fixpoint mk_defs (h : heap) (ds : list pdef) : heap * outcome (list ppl) :=
   end.
 (* result of the last conversion of the history, and whether every conversion so far was inside the
    domain of the behaviour theorem *)
-Definition mexec (f : fmt) (defs : list pdef) (bkd outd : pdef) (rules : list rule) (prog : list op)
-  : outcome result * bool :=
+Definition mexec (f : fmt) (defs : list pdef) (tn : list (str * rent nat)) (bkd outd : pdef) (rules : list rule)
+           (prog : list op) : outcome result * bool :=
   let hl := mk_defs h_empty (defs ++ [bkd; outd]) in
   match snd hl with
   | Ok l =>
     let n := length defs in
-    match nth_error l n, nth_error l (S n) with
-    | Some bk, Some outf =>
-        let reg := firstn n l in
-        let r := fold_left (mstep_acc f reg bk outf rules) prog
-                           (Ok {| mc_heap := fst hl; mc_regs := reg; mc_lastA := None; mc_lastB := None; mc_res := None |}, true) in
+    match nth_error l n, nth_error l (S n), conv_tab (firstn n l) tn with
+    | Some bk, Some outf, Some t =>
+        let r := fold_left (mstep_acc f t bk outf rules) prog
+                           (Ok {| mc_heap := fst hl; mc_regs := firstn n l; mc_lastA := None; mc_lastB := None;
+                                  mc_res := None; mc_fresh := 0 |}, true) in
         (obind (fst r) (fun m => match mc_res m with Some x => Ok x | None => Crash C_Harness end), snd r)
-    | _, _ => (Crash C_Harness, true)
+    | _, _, _ => (Crash C_Harness, true)
     end
   | SigmaErr t => (SigmaErr t, true)
   | Crash t => (Crash t, true)
   end.
-Definition adef (d : pdef) : aentry :=
-  ({| a_items := d_items d; a_post := d_post d; a_fin := d_fin d; a_vars := d_vars d |}, d_prio d, d_name d).
+Definition adef (d : pdef) : aval := (apipe_of d, d_prio d).
